@@ -22,7 +22,7 @@ RULE = ("random programs of 5-40 events over objects drawn from {Operator, SelfA
         "Hamiltonians and SelfAdjointOperators and are themselves written between visits (element writes through the managed array, assignment, "
         "remove/subtract/recover_cutoff_coupling, Operator.__add__), visited with and without being read or protected ('revisit' programs); objects "
         "extracted with at(t) from evolutions and evolution superoperators are tracked next to their source; the repository's own unit tests run in-process under "
-        "the frame-level leak detector (every library frame must return with the basis stack it was entered with); 24 library computations "
+        "the frame-level leak detector (every library frame must return with the basis stack it was entered with); 26 library computations "
         "(propagation with seven kinds of generator, tensor actions, evolution superoperator, Redfield-family builders, rates, thermal states, "
         "dipole operator) made inside a context on objects made outside vs the same made outside; protected context operators entered from other levels. "
         "distinct = (event-kind sequence, nesting profile, exception class); non-trivial iff at least one object was actually transformed (read inside a "
@@ -228,6 +228,7 @@ def library_inside_context(case, ctx):
         S["R"], S["hR"] = agg.get_RelaxationTensor(t, relaxation_theory="stR")
         S["Ro"], S["hRo"] = agg.get_RelaxationTensor(t, relaxation_theory="stR", as_operators=True)
         S["Rtd"], S["hRtd"] = agg.get_RelaxationTensor(t, relaxation_theory="stR", time_dependent=True)
+        S["Rtdo"], S["hRtdo"] = agg.get_RelaxationTensor(t, relaxation_theory="stR", time_dependent=True, as_operators=True)
         S["Rf"], S["hRf"] = agg.get_RelaxationTensor(t, relaxation_theory="stF")
         S["Rc"], S["hRc"] = agg.get_RelaxationTensor(t, relaxation_theory="cRF", coupling_cutoff=jc)
         K = qm.ProjectionOperator(1, 2, dim=dim)
@@ -256,6 +257,8 @@ def library_inside_context(case, ctx):
         ("propagate(stR tensor)", lambda S: qm.ReducedDensityMatrixPropagator(S["ts"], S["hR"], S["R"]).propagate(S["rho"])),
         ("propagate(stR operators, Nref=2)", lambda S: qm.ReducedDensityMatrixPropagator(S["ts"], S["hRo"], S["Ro"]).propagate(S["rho"], Nref=2)),
         ("propagate(TD Redfield)", lambda S: qm.ReducedDensityMatrixPropagator(S["t"], S["hRtd"], S["Rtd"]).propagate(S["rho"])),
+        ("propagate(TD Redfield, operators)", lambda S: qm.ReducedDensityMatrixPropagator(S["t"], S["hRtdo"], S["Rtdo"]).propagate(S["rho"])),
+        ("convert_2_tensor(TD Redfield operators)", lambda S: (S["Rtdo"].convert_2_tensor(), S["Rtdo"])[1]),
         ("propagate(Foerster tensor)", lambda S: qm.ReducedDensityMatrixPropagator(S["ts"], S["hRf"], S["Rf"]).propagate(S["rho"])),
         ("propagate(Redfield-Foerster tensor)", lambda S: qm.ReducedDensityMatrixPropagator(S["ts"], S["hRc"], S["Rc"]).propagate(S["rho"])),
         ("propagate(Lindblad)", lambda S: qm.ReducedDensityMatrixPropagator(S["ts"], S["H"], S["L"]).propagate(S["rho"])),
